@@ -14,4 +14,8 @@ TABLE.update({
  'C05': {'text': 'contract on the real svd/pinv at every split index: orthonormal factors, singular values equal to numpy.linalg.svd of the unfolding, reconstruction, pinv equal to conj(pinv(unfolding))^T, input bitwise unchanged; truncating calls are decided only when the cut lies in a measured spectral gap (else counted as skipped)',
          'note': NOTE, 'technique': 'runtime contracts vs numpy.linalg.svd/pinv of the dense unfolding'},
 })
+TABLE.update({
+ 'C06': {'text': 'call histories over a pool of live TT objects (random 4-16 step histories and an enumeration producer x in-place consumer x shape class with rank-1 bonds / size-1 modes at every position): after every step every live object except the declared in-place target is compared bitwise with its snapshot; argument-immutability contracts on every monitored routine; LAPACK-boundary observer reports a really overwritten buffer that is shared with another live object at the moment it happens; representation invariant on every returned object and through icontract.invariant on the class',
+         'note': NOTE + '; LAPACK in-place behaviour is observed (buffer compared before/after), not assumed', 'technique': 'shadow-pool history monitor + argument-immutability contracts + LAPACK alias observer + class invariant'},
+})
 NOT_YET = {}
